@@ -137,7 +137,7 @@ ROWS = [
     ('a = b =', '_Assign_targets', None), ('a, b = c.d =', '_Assign_targets', None), ('@a\n@b.c', '_decorator_list', None), ('@a(b)', '_decorator_list', None),
     ('a, *b, c=d', '_arglikes', None), ('a, b', '_arglikes', None), ('a, **b', '_arglikes', None), ('if a if b', '_comprehension_ifs', None), ('if a', '_comprehension_ifs', None),
     ('for a in b', 'comprehension', None), ('for a in b if c', 'comprehension', None), ('for a in b for c in d', '_comprehensions', None),
-    ('a, b=c', 'arguments', None), ('a, b', 'arguments', None), ('a, /, b, *c, d, **e', 'arguments', None), ('*a', 'arguments', None), ('a', 'arguments_lambda', None),
+    ('a, b=c', 'arguments', None), ('a, b', 'arguments', None), ('*b, c=1, d', 'arguments', None), ('a, *b, c, d=1', 'arguments', None), ('a, b=1, *c, d=2, **e', 'arguments', None), ('*, c=1', 'arguments', None), ('a, /, b, *c, d, **e', 'arguments', None), ('*a', 'arguments', None), ('a', 'arguments_lambda', None),
     ('a: int', 'arg', None), ('a', 'arg', None), ('a=b', 'keyword', None), ('**a', 'keyword', None), ('a as b', 'alias', None), ('a.b', 'alias', None), ('a', 'alias', None),
     ('a, b as c', '_aliases', None), ('a.b, c', '_aliases', None), ('a as b', 'withitem', None), ('a', 'withitem', None), ('a as b, c', '_withitems', None), ('a, b', '_withitems', None),
     ('[a, *b]', 'pattern', _HP), ('(a, b)', 'pattern', _HP), ('a, b', 'pattern', _HP), ('{"k": a, **b}', 'pattern', _HP), ('{1: a}', 'pattern', _HP), ('C(a, k=b)', 'pattern', _HP), ('C()', 'pattern', _HP),
@@ -410,7 +410,7 @@ FNC = ['fst.fst.FST.as_', 'fst.code.code_as', 'fst.code._coerce_to_expr_ast', 'f
        'fst.code._coerce_to__decorator_list', 'fst.code._coerce_to__comprehension_ifs', 'fst.code._coerce_to__aliases_common', 'fst.code._coerce_to_pattern_ast', 'fst.code._coerce_to_arg',
        'fst.code._coerce_to_keyword', 'fst.code._coerce_to_alias', 'fst.fst_misc._fix_undelimited_seq', 'fst.fst_misc._delimit_node', 'fst.fst_core._put_src']
 CELLS = []
-_QROWS = {'a', '(a, b)', 'a, b', '[a, b]', 'f(a, b=c)', '(a,  # c1\n b,\n)', '[ "é" , b ]', 'a, *b, c=d', '@a\n@b.c', 'a = b =', 'a, b as c', 'a as b, c', '[a, *b]', 'C(a, k=b)', 'a, b=c', 'T, *U', 'if a if b',
+_QROWS = {'*b, c=1, d', 'a, *b, c, d=1', 'a', '(a, b)', 'a, b', '[a, b]', 'f(a, b=c)', '(a,  # c1\n b,\n)', '[ "é" , b ]', 'a, *b, c=d', '@a\n@b.c', 'a = b =', 'a, b as c', 'a as b, c', '[a, *b]', 'C(a, k=b)', 'a, b=c', 'T, *U', 'if a if b',
           '{"k": a, **b}', 'a | b', '-1'}
 for _i, (_f, _m, _h) in enumerate(ROWS):
     CELLS.append(Cell(f'P1.coerce[{_f!r}:{_m}]', _mk_row(_i), 'P', FNC,
